@@ -37,3 +37,12 @@ def c10_rrule_drops_microseconds(case, result):
         return False
     obs = result.get('obs') or []
     return bool(obs) and all(x % 1000000 == 0 for x in obs) and 'returned %d dates' % len(obs) in (result.get('viol') or '') and 'gives %d dates' % len(obs) in (result.get('viol') or '')
+
+def c08_scalar_zero_divisor(case, result):
+    # div_(x, 0) with a SCALAR zero divisor (x a Series / DataFrame / scalar): the pinned tree returns the scalar nan
+    # (or, for a multi-column frame, a Series over the column names) instead of an all-NaN object on x's index.
+    # Only needed if fixes/C08.patch is not applied.
+    if case.get('kind') != 'op' or case.get('op') != 'div':
+        return False
+    b = case.get('b')
+    return isinstance(b, dict) and b.get('N', None) == 0 and 'N' in b and result.get('status') == 'ok'
